@@ -187,13 +187,15 @@ func genCore() []Scenario {
 		realm    string
 		template bool
 		closing  bool
+		stopped  bool
 	}
 	rcases := []realmCase{
-		{"exists", "realm1", false, false}, {"exists+template", "realm1", true, false},
-		{"template", "new.realm", true, false}, {"template-bad-uri", "bad realm", true, false},
-		{"template-bad-uri2", "a..b", true, false}, {"template-hash", "a#b", true, false},
-		{"missing", "nosuch", false, false}, {"empty", "", false, false}, {"empty+template", "", true, false},
-		{"closing", "realm1", false, true}, {"closing-missing", "nosuch", false, true}, {"closing-empty", "", false, true},
+		{"exists", "realm1", false, false, false}, {"exists+template", "realm1", true, false, false},
+		{"template", "new.realm", true, false, false}, {"template-bad-uri", "bad realm", true, false, false},
+		{"template-bad-uri2", "a..b", true, false, false}, {"template-hash", "a#b", true, false, false},
+		{"missing", "nosuch", false, false, false}, {"empty", "", false, false, false}, {"empty+template", "", true, false, false},
+		{"closing", "realm1", false, true, false}, {"closing-missing", "nosuch", false, true, false}, {"closing-empty", "", false, true, false},
+		{"stopped", "realm1", false, false, true}, {"stopped-template", "new.realm", true, false, true}, {"stopped-empty", "", false, false, true},
 	}
 	firsts := []struct {
 		first string
@@ -212,6 +214,7 @@ func genCore() []Scenario {
 					sc.Router.Template = &t
 				}
 				sc.Router.Closing = rcse.closing
+				sc.Router.Stopped = rcse.stopped
 				out = append(out, sc)
 			}
 		}
@@ -348,6 +351,7 @@ func genRandom(seed uint64, count int) []Scenario {
 			sc.Router.Template = &t
 		}
 		sc.Router.Closing = r.chance(3)
+		sc.Router.Stopped = !sc.Router.Closing && r.chance(2)
 		// peer
 		sc.Peer.Local = r.chance(40)
 		switch r.n(6) {
